@@ -15,7 +15,8 @@ EXPLANATION = ("The real up/down converter (with LiteX StrideConverter/SyncFIFO 
                "both sides; every user read beat of that byte must return the byte most recently written in command order.")
 
 
-def conv_bench(name, user_dw, native_dw, mode="both", reverse=False, aw_native=4, stub_depth=3, qdepth=3):
+def conv_bench(name, user_dw, native_dw, mode="both", reverse=False, aw_native=4, stub_depth=3, qdepth=3, lane=None,
+               others_zero=False):
     ratio_down = user_dw // native_dw if user_dw > native_dw else 0
     ratio_up = native_dw // user_dw if native_dw > user_dw else 0
     if ratio_down:
@@ -32,15 +33,23 @@ def conv_bench(name, user_dw, native_dw, mode="both", reverse=False, aw_native=4
     ub, nb = user_dw // 8, native_dw // 8
     UA = Signal(aw_user, name_override="UA")
     UL = Signal(max=max(ub, 2), name_override="UL")
+    if lane is not None:
+        ULc = UL
+        UL = lane
     mem = Signal(8, name_override="mem_byte")
     ref = Signal(8, name_override="ref_byte")
     wa = Signal(aw_native)
     wl = Signal(max=max(nb, 2))
     if ratio_down:
         r = ratio_down
-        chunk = UL[log2_int(nb):] if nb > 1 else UL
+        if lane is None:
+            chunk = UL[log2_int(nb):] if nb > 1 else UL
+            lo = UL[:log2_int(nb)] if nb > 1 else 0
+        else:
+            chunk = lane // nb
+            lo = lane % nb
         k = (r - 1 - chunk) if reverse else chunk
-        top.comb += [wa.eq(UA * r + k), wl.eq(UL[:log2_int(nb)] if nb > 1 else 0)]
+        top.comb += [wa.eq(UA * r + k), wl.eq(lo)]
     else:
         r = ratio_up
         chunk = UA[:log2_int(r)]
@@ -68,11 +77,25 @@ def conv_bench(name, user_dw, native_dw, mode="both", reverse=False, aw_native=4
         s2 = Signal()
         top.comb += s2.eq(stub.resp_w)
         covers["write_data_strobed"] = s2
-    ul_ok = Signal()
-    top.comb += ul_ok.eq(UL < ub)
     assumes = dict(env.assumes)
-    assumes["lane_in_range"] = ul_ok
-    b = bmc.Bench(name, top, inputs, consts={"UA": UA, "UL": UL}, free_init={"mem_byte": mem, "ref_byte": ref},
+    consts = {"UA": UA}
+    if lane is None:
+        ul_ok = Signal()
+        top.comb += ul_ok.eq(UL < ub)
+        assumes["lane_in_range"] = ul_ok
+        consts["UL"] = UL
+    if others_zero and lane is not None:
+        oz = Signal()
+        terms = []
+        if with_w:
+            for i in range(ub):
+                if i != lane:
+                    terms.append(pu.wdata.data[8 * i:8 * i + 8] == 0)
+        if with_r:
+            terms.append(stub.inputs["stub_rdata_other"] == 0)
+        top.comb += oz.eq(monitors.all_(terms))
+        assumes["data_outside_watched_lane_is_zero(data_independence)"] = oz
+    b = bmc.Bench(name, top, inputs, consts=consts, free_init={"mem_byte": mem, "ref_byte": ref},
                   init_assume=[mem == ref], assumes=assumes, bads=bads, covers=covers,
                   info=dict(user_dw=user_dw, native_dw=native_dw, mode=mode, reverse=reverse))
     b.watch = {"u_cmd_valid": pu.cmd.valid, "u_cmd_ready": pu.cmd.ready, "u_we": pu.cmd.we, "u_addr": pu.cmd.addr,
@@ -101,6 +124,8 @@ CONFIGS = {
     "down_2to1_read": (dict(user_dw=16, native_dw=8, mode="read"), 0, 30, "t"),
 }
 BENCHES = {n: partial(conv_bench, n, **c[0]) for n, c in CONFIGS.items()}
+BENCHES["exp_down_2to1_lane0"] = partial(conv_bench, "exp_down_2to1_lane0", user_dw=32, native_dw=16, lane=0, others_zero=True)
+BENCHES["exp_down_2to1_lane0_nz"] = partial(conv_bench, "exp_down_2to1_lane0_nz", user_dw=32, native_dw=16, lane=0, others_zero=False)
 
 
 def run(ctx):
